@@ -201,14 +201,20 @@ def compile_def(name, graph, variants=None):
     try:
         data = gp.sd_bytes(sd)
     except Exception as e:
+        # the refusal has to be stable: asking again may not hand out bytes
+        # (e.g. a half-written stream the first attempt left behind)
         left = None
-        if getattr(sd, '_bytes', None) is not None:
-            left = bytes(sd._bytes)
-        else:
-            try:
-                left = gp.sd_bytes(sd)
-            except Exception:
-                left = None
+        try:
+            again = gp.sd_bytes(sd)
+            left = bytes(again) or b'<empty>'
+        except Exception:
+            cached = getattr(sd, '_bytes', None)
+            if cached is not None:
+                try:
+                    left = bytes(cached.getvalue() if hasattr(
+                        cached, 'getvalue') else cached) or b'<empty>'
+                except Exception:
+                    left = b'<unreadable cache>'
         return ('raised', 'as_bytes', e, left)
     return ('ok', sd, data)
 
